@@ -7,6 +7,7 @@ import (
 	"crypto/rsa"
 	"crypto/sha256"
 	"crypto/sha512"
+	"fmt"
 
 	hpke "github.com/cisco/go-hpke"
 	"github.com/cloudflare/circl/blindsign/blindrsa"
@@ -117,6 +118,9 @@ func (s RateLimitedTokenRequestState) ClientKey() []byte {
 func (s RateLimitedTokenRequestState) FinalizeToken(encryptedtokenResponse []byte) (tokens.Token, error) {
 	// response_nonce = random(max(Nn, Nk)), taken from the encapsualted response
 	responseNonceLen := max(s.nameKey.suite.AEAD.KeySize(), s.nameKey.suite.AEAD.NonceSize())
+	if len(encryptedtokenResponse) < responseNonceLen {
+		return tokens.Token{}, fmt.Errorf("invalid token response encoding")
+	}
 
 	// salt = concat(enc, response_nonce)
 	salt := append(s.encapEnc, encryptedtokenResponse[:responseNonceLen]...)
